@@ -17,6 +17,7 @@ func (e *Enc) applyEffect(st *State, ef *effect) {
 		if srt, ok := arrSorts[n]; ok {
 			e.n++
 			st.m[n] = e.declare(fmt.Sprintf("%s@%d", n, e.n), srt)
+			e.wfArray(n, st.m[n])
 		} else {
 			e.havocAll(st)
 			return
@@ -32,6 +33,17 @@ func (e *Enc) call(in *ssa.Call, st *State) {
 		if c.Method.Pkg() != nil && ufIfacePkgs[c.Method.Pkg().Path()] {
 			e.set(in, e.ufApply("iface."+c.Method.Pkg().Path()+"."+c.Method.Name(), append([]ssa.Value{c.Value}, c.Args...), in.Type()))
 			return
+		}
+		if t := e.dynOf(c.Value); t != nil {
+			if callee, rv := e.devirtualize(t, c.Method, recv, st); callee != nil {
+				args := append([]ssa.Value{nil}, c.Args...)
+				argv := []*Val{rv}
+				for _, a := range c.Args {
+					argv = append(argv, e.val(a))
+				}
+				e.staticCallV(in, callee, args, argv, st)
+				return
+			}
 		}
 		e.havocAll(st)
 		e.set(in, e.freshVal("invoke."+c.Method.Name(), in.Type()))
@@ -54,8 +66,8 @@ func (e *Enc) call(in *ssa.Call, st *State) {
 		pre := st.clone()
 		e.havocAll(st)
 		e.set(in, e.freshVal("dyncall", in.Type()))
-		if p, ok := c.Value.(*ssa.Parameter); ok && e.con != nil {
-			for _, en := range e.con.Callback[p.Name()] {
+		if pn := callbackName(c.Value); pn != "" && e.con != nil {
+			for _, en := range e.con.Callback[pn] {
 				if e.active(en) {
 					env := &Env{e: e, st: st, old: &pre, vars: e.params}
 					e.assumeHere(env.formula(en.E))
@@ -122,7 +134,59 @@ func (e *Enc) builtin(in *ssa.Call, b *ssa.Builtin, st *State) {
 }
 
 func (e *Enc) staticCall(in *ssa.Call, callee *ssa.Function, args []ssa.Value, st *State) {
+	argv := make([]*Val, len(args))
+	for i, a := range args {
+		argv[i] = e.val(a)
+	}
+	e.staticCallV(in, callee, args, argv, st)
+}
+
+// specKey names the specialization of callee selected by the dynamic types of interface-typed arguments that are
+// known at this call site, e.g. "restlicodec.readRecord[reader=*restlicodec.ror2Reader]".
+func (e *Enc) specKey(callee *ssa.Function, args []ssa.Value, argv []*Val) (string, map[int]types.Type) {
+	var parts []string
+	dyn := map[int]types.Type{}
+	for i, p := range callee.Params {
+		if i >= len(args) || args[i] == nil {
+			continue
+		}
+		if _, ok := p.Type().Underlying().(*types.Interface); !ok {
+			continue
+		}
+		if t := e.dynOf(args[i]); t != nil {
+			parts = append(parts, p.Name()+"="+typeKey(t))
+			dyn[i] = t
+		}
+	}
+	if len(parts) == 0 {
+		return "", nil
+	}
+	return fname(callee) + "[" + strings.Join(parts, ",") + "]", dyn
+}
+
+// dynOf is the dynamic type of an interface value when it is known syntactically.
+func (e *Enc) dynOf(v ssa.Value) types.Type {
+	switch x := v.(type) {
+	case *ssa.MakeInterface:
+		return x.X.Type()
+	case *ssa.ChangeInterface:
+		return e.dynOf(x.X)
+	}
+	if t, ok := e.dyn[v]; ok {
+		return t
+	}
+	return nil
+}
+
+func (e *Enc) staticCallV(in *ssa.Call, callee *ssa.Function, args []ssa.Value, argv []*Val, st *State) {
 	con := e.db.byFunc[fname(callee)]
+	specDyn := map[int]types.Type{}
+	if key, dyn := e.specKey(callee, args, argv); key != "" {
+		if sc := e.db.byFunc[key]; sc != nil {
+			con = sc
+			specDyn = dyn
+		}
+	}
 	if e.con != nil {
 		cn := fname(callee)
 		if pk := pkgPathOf(callee); pk != "" && !strings.HasPrefix(pk, "github.com/PapaCharlie") {
@@ -137,7 +201,7 @@ func (e *Enc) staticCall(in *ssa.Call, callee *ssa.Function, args []ssa.Value, s
 					vars[k] = v
 				}
 				for i, arg := range args {
-					vars[fmt.Sprintf("arg%d", i)] = e.val(arg)
+					vars[fmt.Sprintf("arg%d", i)] = argv[i]
 					if mi, ok := arg.(*ssa.MakeInterface); ok {
 						vars[fmt.Sprintf("unbox_arg%d", i)] = e.val(mi.X)
 					}
@@ -153,24 +217,32 @@ func (e *Enc) staticCall(in *ssa.Call, callee *ssa.Function, args []ssa.Value, s
 	}
 	pre := st.clone()
 	// receiver nil check for pointer-receiver methods
-	if callee.Signature.Recv() != nil && len(args) > 0 {
-		if _, ok := args[0].Type().Underlying().(*types.Pointer); ok {
+	if callee.Signature.Recv() != nil && len(args) > 0 && !(con != nil && con.NilableRecv) {
+		if _, ok := argv[0].typ.Underlying().(*types.Pointer); ok && args[0] != nil {
 			switch args[0].(type) {
 			case *ssa.Alloc, *ssa.FieldAddr, *ssa.IndexAddr:
 			default:
-				e.oblige("nil", exprText(args[0])+"."+callee.Name(), in.Pos(), not(eq(e.val(args[0]).c[0], "null")))
+				e.oblige("nil", exprText(args[0])+"."+callee.Name(), in.Pos(), not(eq(argv[0].c[0], "null")))
 			}
 		}
 	}
 	vars := map[string]*Val{}
 	for i, p := range callee.Params {
 		if i < len(args) {
-			vars[p.Name()] = e.val(args[i])
+			vars[p.Name()] = argv[i]
+			if t, ok := specDyn[i]; ok {
+				if _, isPtr := t.Underlying().(*types.Pointer); isPtr {
+					vars[p.Name()] = &Val{typ: t, c: []string{argv[i].c[1]}}
+				}
+			}
 		}
 	}
 	tinv := e.db.typeInvFor(fname(callee))
+	if callee.Signature.Recv() == nil {
+		tinv = nil
+	}
 	if len(tinv) > 0 && len(args) > 0 {
-		env := &Env{e: e, st: st, old: st, vars: map[string]*Val{"self": e.val(args[0])}}
+		env := &Env{e: e, st: st, old: st, vars: map[string]*Val{"self": argv[0]}}
 		for _, c := range tinv {
 			e.obligeClause("pre:"+callee.Name()+":typeinv", c, in.Pos(), env.formula(c.E))
 		}
@@ -181,7 +253,7 @@ func (e *Enc) staticCall(in *ssa.Call, callee *ssa.Function, args []ssa.Value, s
 			e.obligeClause("pre:"+callee.Name(), r, in.Pos(), env.formula(r.E))
 		}
 	}
-	if pkgPathOf(callee) == "encoding/json" && callee.Name() == "Unmarshal" {
+	if (pkgPathOf(callee) == "encoding/json" && callee.Name() == "Unmarshal") || pkgPathOf(callee) == "sort" {
 		ef := &effect{names: map[string]bool{}}
 		e.instrEffect(in, ef)
 		e.applyEffect(st, ef)
@@ -190,13 +262,13 @@ func (e *Enc) staticCall(in *ssa.Call, callee *ssa.Function, args []ssa.Value, s
 	}
 	var res *Val
 	if pk := pkgPathOf(callee); ufPkgs[pk] && in.Type() != nil {
-		res = e.ufApply(pk+"."+callee.Name(), args, in.Type())
+		res = e.ufTerm(pk+"."+callee.Name(), argv, in.Type())
 	} else {
 		res = e.freshVal("call."+callee.Name(), in.Type())
 	}
 	e.set(in, res)
 	if len(tinv) > 0 && len(args) > 0 {
-		env := &Env{e: e, st: st, old: &pre, vars: map[string]*Val{"self": e.val(args[0])}}
+		env := &Env{e: e, st: st, old: &pre, vars: map[string]*Val{"self": argv[0]}}
 		for _, c := range tinv {
 			if e.active(c) {
 				e.assumeHere(env.formula(c.E))
@@ -237,6 +309,37 @@ func (e *Enc) staticCall(in *ssa.Call, callee *ssa.Function, args []ssa.Value, s
 			}
 		}
 	}
+}
+
+// callbackName: the parameter or captured variable a called function value stems from (seen through the cell that
+// go/ssa allocates for captured parameters).
+func callbackName(v ssa.Value) string {
+	switch x := v.(type) {
+	case *ssa.Parameter:
+		return x.Name()
+	case *ssa.FreeVar:
+		return x.Name()
+	case *ssa.UnOp:
+		switch a := x.X.(type) {
+		case *ssa.FreeVar:
+			return a.Name()
+		case *ssa.Alloc:
+			var src ssa.Value
+			n := 0
+			for _, r := range *a.Referrers() {
+				if s, ok := r.(*ssa.Store); ok && s.Addr == a {
+					n++
+					src = s.Val
+				}
+			}
+			if n == 1 {
+				if p, ok := src.(*ssa.Parameter); ok {
+					return p.Name()
+				}
+			}
+		}
+	}
+	return ""
 }
 
 // pureFieldOf names the struct field a function value was loaded from ("pkg.Struct.field"), if it is a direct load.
@@ -303,4 +406,53 @@ func (e *Enc) ufTerm(name string, args []*Val, rt types.Type) *Val {
 		out.c = append(out.c, app(f, argTerms...))
 	}
 	return out
+}
+
+// devirtualize resolves an interface method call on a value of known dynamic type t to the concrete method and the
+// receiver it is applied to (following embedded fields for promoted methods).
+func (e *Enc) devirtualize(t types.Type, m *types.Func, recv *Val, st *State) (*ssa.Function, *Val) {
+	if _, ok := t.Underlying().(*types.Pointer); !ok {
+		return nil, nil
+	}
+	sel := types.NewMethodSet(t).Lookup(m.Pkg(), m.Name())
+	if sel == nil {
+		return nil, nil
+	}
+	fn := e.prog.FuncValue(sel.Obj().(*types.Func))
+	if fn == nil {
+		return nil, nil
+	}
+	cur := &Val{typ: t, c: []string{recv.c[1]}}
+	path := sel.Index()
+	curT := t
+	ref := cur.c[0]
+	for _, idx := range path[:len(path)-1] {
+		pt, ok := curT.Underlying().(*types.Pointer)
+		if !ok {
+			return nil, nil
+		}
+		s, ok := pt.Elem().Underlying().(*types.Struct)
+		if !ok {
+			return nil, nil
+		}
+		f := s.Field(idx)
+		if _, isStruct := isStruct(f.Type()); isStruct {
+			ref = app("emb", ref, num(int64(idx)))
+			curT = types.NewPointer(f.Type())
+			continue
+		}
+		if _, isPtr := f.Type().Underlying().(*types.Pointer); isPtr {
+			v := e.loadLoc(st, &Loc{field: true, ref: ref, skey: structKey(pt.Elem()), fname: f.Name(), typ: f.Type()})
+			ref = v.c[0]
+			curT = f.Type()
+			continue
+		}
+		return nil, nil
+	}
+	// receiver form expected by the method
+	want := fn.Signature.Recv().Type()
+	if _, ok := want.Underlying().(*types.Pointer); ok {
+		return fn, &Val{typ: want, c: []string{ref}}
+	}
+	return nil, nil
 }
